@@ -141,17 +141,6 @@ def brief(c):
     return d
 
 
-def known_class(c, r):
-    """the recorded finding (key) that fully accounts for a disagreement on this case, if it is listed"""
-    key = None
-    if c["kind"] == "ic" and not c["ac"] and c["units"] in ("voxel", "world"):
-        key = f"C17:inverse_consistency_loss:{c['units']}-units-align-corners-false"
-    elif c["kind"] == "lame" and c.get("pair") == "first_young" and r.get("error") == "ValueError" and "is negative" in r.get("msg", ""):
-        key = "C17:lame_parameters:first_young:raises"
-    known, _ = vlib.load_findings()
-    return key if key in known else None
-
-
 def run_shard(ctx, cases, res, name, lame_ok):
     lines = [HEADER]
     names = []
@@ -160,11 +149,6 @@ def run_shard(ctx, cases, res, name, lame_ok):
         if "error" in r:
             if c["kind"] == "lame" and lame_ok.get(c["pair"]) not in ("Ok", None):
                 continue        # the source cannot execute this pair at all: compared through the raise table
-            kc = known_class(c, r)
-            if kc:
-                _n = f"correspondence: disagreement(s) accounted for by recorded finding {kc}"
-                _n in ctx.notes or ctx.notes.append(_n)
-                continue
             failures.append({"why": f"implementation raised {r['error']}: {r.get('msg', '')[:100]}", "case": brief(c)})
             continue
         if c["kind"] == "lame" and lame_ok.get(c["pair"]) != "Ok":
@@ -181,11 +165,6 @@ def run_shard(ctx, cases, res, name, lame_ok):
     else:
         for j in bad:
             i = names[j]
-            kc = known_class(cases[i], res[i])
-            if kc:
-                _n = f"correspondence: disagreement(s) accounted for by recorded finding {kc}"
-                _n in ctx.notes or ctx.notes.append(_n)
-                continue
             failures.append({"why": f"model value differs from implementation ({cases[i]['kind']})",
                              "impl": {"val": res[i]["val"][:6]}, "case": brief(cases[i])})
     return failures
@@ -244,10 +223,6 @@ def search(ctx, broken, corr_failures):
 def explains(broken_item, found):
     b = broken_item
     keys = {v.key for v in found}
-    if b.startswith("correspondence:") and "(ic)" in b and '"ac": false' in b:
-        return any(k.startswith("C17:inverse_consistency_loss:") and k.endswith("align-corners-false") for k in keys)
-    if b.startswith("correspondence:") and "first_young" in b and "is negative" in b:
-        return "C17:lame_parameters:first_young:raises" in keys or "C17:lame_parameters:first_young:wrong" in keys
     known, _ = vlib.load_findings()
     fresh = " ".join(k for k in keys if k not in known)
     fns = ["bending", "curvature", "diffusion", "divergence", "elasticity", "total_variation", "tv", "lame", "inverse_consistency",
